@@ -199,9 +199,16 @@ KANI_UNITS["vk_uf"] = {
 
 KANI_UNITS["vk_var"] = {
     "mode": "dep", "crate": "contracts/kani/vk_var", "props": ["C10"],
-    "what": "variadics::VariadicColumnMultiset (real crate) against a multiset-of-tuples oracle",
+    "gen": [("src/extracted.rs.in", "src/extracted.rs")],
+    "under_contract": r"VariadicHashSet|VariadicCountedHashSet|DuplicateCounted",
+    "trusted": ["contracts/kani/vk_var/shims/hashbrown: CONTRACT DOUBLE of hashbrown::hash_table::{HashTable, Entry, IntoIter} (insertion-ordered list searched "
+                "with the caller's eq closure); the real table is outside CBMC's reach beyond one entry"],
+    "what": "variadics::VariadicColumnMultiset (real crate) against a multiset-of-tuples oracle; VariadicHashSet / VariadicCountedHashSet: "
+            "variadic_collections.rs extracted verbatim (one stated substitution crate:: -> variadics::) over a contract double of hashbrown::hash_table, "
+            "against set / multiset oracles; the same two types on the real hashbrown table for one tuple (thorough)",
     "instantiation": "schema var_type!(u8, u8)",
-    "bounded": {r"column_": "<= 3 inserted tuples (Vec columns)", r"slow_": "ONE inserted tuple, constant hasher (hashbrown table)"},
+    "bounded": {r"column_": "<= 3 inserted tuples (Vec columns)", r"^harness::slow_": "ONE inserted tuple, constant hasher (REAL hashbrown table)",
+                r"hash_harness": "<= 3 inserted tuples over a 2 x 2 domain, hashbrown::hash_table replaced by a contract double"},
 }
 
 KANI_UNITS["vk_sim"] = {
@@ -270,8 +277,8 @@ PROPS["C13"] = [("kani", "ov_pipes", ["symmetric_hash_join"], ("quick", "thoroug
 
 # C17 NOT registered: see mkmanifest NOT_APPLICABLE (vk_uf kept for reference; every harness times out at 1200 s)
 
-PROPS["C10"] = [("kani", "vk_var", ["harness::column_"], ("quick",)),
-                ("kani", "vk_var", ["harness::"], ("thorough",))]
+PROPS["C10"] = [("kani", "vk_var", ["harness::column_", "hash_harness::hash_set_contract", "hash_harness::counted_set_contract"], ("quick",)),
+                ("kani", "vk_var", ["harness::column_", "harness::slow_", "hash_harness::hash_set_contract", "hash_harness::counted_set_contract", "hash_harness::slow_"], ("thorough",))]
 
 PROPS["C05"] = [("kani", "vk_lat", ["coll3::tombstone_set", "coll3::tombstone_map_merge_one_entry"], ("quick",)),
                 ("kani", "vk_lat", ["coll3::tombstone"], ("thorough",))]
